@@ -48,6 +48,10 @@ def run(chk: Check, proj: Project) -> None:
                lambda sub: C07.s1a_publication(sub, proj, w_, C07.reach_set(proj, w_)), only=lambda o: "tag_parser" in o.construct or "template" in o.construct.lower() or "node" in o.construct.lower())
     s5_accessors(chk, proj, ["TEMPLATE_CACHE_SIZE"], rule="S5")
     s7_values_are_opaque(chk, proj)
+    from . import C01 as _C01
+
+    chk.borrow("S9", "a cached Template renders like a fresh compilation on EVERY render: which fills a `{% component %}` body provides is discovered per render (a body with `{% if c %}{% fill %}..{% endif %}` provides a fill in one render and none in the next) - a 'no fills here' memo on the cached node list makes the second render fail or print the default (shared with C01-S11)",
+               lambda sub: _C01.s11(sub, proj, w_), only=lambda o: "discovery-every-render" in o.construct)
     cm, cf = proj.func("cache", "get_template_cache")
     c = calls(cf, "LRUCache")
     ok = bool(c) and norm(kwarg(c[0], "maxsize") or (c[0].args[0] if c[0].args else ast.Constant(value=None))) == "app_settings.TEMPLATE_CACHE_SIZE"
